@@ -13,7 +13,7 @@ from core import err_kind
 ID = "C06"
 MODEL_OP = "compound (combined_wcs)"
 RULE = ("cubes of 1-4 dims over probe / FITS / gWCS primaries with 0-4 extra coords in any axis assignment (several on "
-        "one axis, 2-axis Quantity tables, Quantity / Time / 1-D SkyCoord), before and after slicing and rebinning; "
+        "one axis, 2-axis Quantity tables, meshed 2-axis SkyCoord tables, Quantity / Time / 1-D SkyCoord), before and after slicing and rebinning; "
         "pixel positions on and between grid points; finite-difference dependence of every world output on every array "
         "axis. Non-trivial = at least one extra coord; distinct = whole case")
 TRUSTED = ["the separate descriptions (cube.wcs, cube.extra_coords.wcs) evaluated directly are the reference"]
@@ -32,11 +32,17 @@ def generate(rng, tier):
         shape = [rng.choice([3, 4, 5]) for _ in range(nd)]
         ecs = []
         for _ in range(rng.choice([0, 1, 1, 2, 3, 4])):
-            kind = rng.choice(["quantity", "quantity", "time", "sky", "quantity2"])
-            if kind == "quantity2" and nd < 2:
+            kind = rng.choice(["quantity", "quantity", "time", "sky", "quantity2", "skymesh"])
+            if kind in ("quantity2", "skymesh") and nd < 2:
                 kind = "quantity"
-            ax = rng.randrange(nd) if kind != "quantity2" else sorted(rng.sample(range(nd), 2))
+            ax = rng.randrange(nd) if kind not in ("quantity2", "skymesh") else sorted(rng.sample(range(nd), 2))
             ecs.append({"axis": ax, "kind": kind})
+        for e in ecs * 2:                                  # the two components of a meshed SkyCoord table have equal lengths
+            if e["kind"] == "skymesh":
+                shape[e["axis"][1]] = shape[e["axis"][0]]
+        for e in ecs:
+            if e["kind"] == "skymesh" and shape[e["axis"][1]] != shape[e["axis"][0]]:
+                e["kind"] = "quantity2"
         yield {"shape": shape, "fam": rng.choice(["probe", "probe_coupled", "fits_sep", "fits_cel", "fits_rot", "gwcs"]),
                "wseed": rng.randrange(10**6), "ecs": ecs, "pre": rng.choice([None, None, "slice", "rebin"])}
 
@@ -56,6 +62,12 @@ def build(case):
             cube.extra_coords.add((f"qa{k}", f"qb{k}"), (a0, a1),
                                   QuantityTableCoordinate(t0, t1, names=(f"qa{k}", f"qb{k}"), physical_types=(f"custom:qa{k}", f"custom:qb{k}")))
             continue
+        if ec["kind"] == "skymesh":
+            n = shape[ec["axis"][0]]
+            v = np.arange(n, dtype=float) ** 2 + 3 * np.arange(n) + 10 * k
+            cube.extra_coords.add((f"lon{k}", f"lat{k}"), tuple(ec["axis"]),
+                                  SkyCoord(v * u.deg / 10, (v / 2 - 5 + np.arange(n) % 2) * u.deg / 10, frame="icrs"), mesh=True)
+            continue
         n = shape[ec["axis"]]
         v = np.arange(n, dtype=float) ** 2 + 3 * np.arange(n) + 10 * k
         if ec["kind"] == "quantity":
@@ -68,14 +80,14 @@ def build(case):
         item = [slice(1, None) for _ in shape]
         # an integer on an axis that carries no part of a 2-axis table (one *of* its axes is C02's concern),
         # possibly an axis lying between the two axes of such a table
-        used = {a for e in case["ecs"] if e["kind"] == "quantity2" for a in e["axis"]}
+        used = {a for e in case["ecs"] if e["kind"] in ("quantity2", "skymesh") for a in e["axis"]}
         free = [a for a in range(len(shape)) if a not in used]
         if len(shape) > 1 and free:
             # index 2, never the reference pixel of the FITS families (crpix - 1 is -1, 0, 0.5 or 1): along a cut
             # exactly through the reference pixel a celestial longitude is constant although structurally coupled
             item[free[case["wseed"] % len(free)]] = 2
         cube = cube[tuple(item)]
-    elif case["pre"] == "rebin" and not any(e["kind"] == "quantity2" for e in case["ecs"]):
+    elif case["pre"] == "rebin" and not any(e["kind"] in ("quantity2", "skymesh") for e in case["ecs"]):
         # (multi-table Quantity coordinates cannot be resampled onto grids of different lengths: C19's concern)
         bins = tuple(2 if s % 2 == 0 else 1 for s in shape)
         if any(b > 1 for b in bins):
